@@ -41,7 +41,9 @@ CLAIMED = {
              'children, that the unchosen block leaves nothing, and that fp, ap and the defeat word are as at try entry afterwards (history clause = invariant at every construct boundary).',
              'leaf-set contracts on emitted assembly under the Turing-jump semantics, z3'),
     'C03': T('No lemma has a committed halt of its own outside defeat context (a defeat leaf must be caused by a child that reached defeat); terminal stubs and the sleep loop proved '
-             'on the library text; flavour/context guards (C06) proved both directions.', 'no-bottom-leaf postcondition on every lemma + stub contracts'),
+             'on the library text; flavour/context guards (C06) proved both directions; defeat primitives, preempt and blocks in all three defeat contexts (real halt, defeat function, try/stop body '
+             'of a you-function); Block.evaluate is structure preserving for every child mode set (no handler dropped on the strength of exit modes).',
+             'no-bottom-leaf postcondition on every lemma + stub contracts'),
     'C04': T('Every load/store/indirect jump executed by every lemma (checked builds) is proved to stay inside [ap, fp), a live array extent or a global, assuming only the invariant the '
              'guards establish; guard templates proved exact; library routines proved against what the caller guarded.', 'SAFE obligations on symbolic execution of emitted text, z3'),
     'C05': T('Biconditional contracts: division/modulo guard, index guard, dynamic array length/space guard, function entry guard fault exactly when the condition holds, before the '
@@ -49,7 +51,9 @@ CLAIMED = {
     'C06': T('Every grammar rule that threads a BlockContext is interpreted path-wise with await as an oracle; for all well-formed contexts the context handed to every sub-rule and every '
              'accept/reject guard is proved to be the one the property prescribes, both directions.', 'pyvc path exploration x complete enumeration of contexts', PY_NOTE),
     'C08': T('At every exit of every lemma (fall-through, break, continue, return, handler) fp is unchanged and ap is the value prescribed (entry value, loop restore point, function '
-             'base); calls preserve the caller frame by the callee contract.', 'INV obligations at lemma exits, z3'),
+             'base); calls preserve the caller frame by the callee contract; block-scoped literal/dynamic/nested arrays; while a child runs, ap is not below its value at the entry '
+             'of the construct (arrays in scope stay allocated); break/continue take restore point and defeat from the real LoopInfo of the innermost loop.',
+             'INV / CHILD-ARRAYS obligations at lemma exits and child invocations, z3'),
     'C09': T('Operator and cast lemmas hold for all operand values (integer reasoning over the whole word, not a grid) in value, branch and defeat position, at the enumerated word sizes; '
              'halt_inversion and compare_map are exercised through the real bool_expr_branch/truth_is_defeat.', SIM),
     'C10': T('No real generator method raises an internal exception on any abstract input used by the lemmas (NOERR on every lemma); every grammar rule raises only ParserError; '
@@ -76,7 +80,8 @@ CLAIMED = {
     'C07': T('Contracts on the real typing functions: coercibility lattice (Type.coercible / literal shrinkability incl. folded arithmetic) against the documented table by complete '
              'enumeration over all type pairs and literal shapes; every statement rule (declaration, assignment, inc-assignment, return, call arity/types, const-ness, shadowing, '
              'duplicates, nested/empty arrays, casts) accept-iff-documented over an enumerated rule x context domain; overload resolution (FuncCall.evaluate interpreted path-wise with '
-             'coercible answered by an oracle, all answers): exact match first, else first declared overload every argument coerces to.',
+             'coercible answered by an oracle, all answers): exact match first, else first declared overload every argument coerces to; the overload table keeps declaration order '
+             'through type checking; the typed tree evaluate() builds denotes the documented value for all operand values (py_typed).',
              'complete enumeration of the finite type lattice and rule domain on the real evaluate()/coercible() + pyvc path exploration of FuncCall.evaluate', PY_NOTE),
     'C12': T('Token regular expressions of the real lexer proved equivalent (automata over a class-representative alphabet) to the documented token grammar; keyword/operator tables '
              'and every escape by complete enumeration; read_int value contract for all digit strings in all bases (z3 integers + enumeration of digit tables); scanner span '
